@@ -19,7 +19,7 @@ ENTRY_PRELUDE = '''
 UNIT = {
  'name': 'xrefstm',
  'doc': 'Cross-reference stream section reader (big-endian fields, entry types) and writer (write_stream), and the writer->reader codec',
- 'timeout': 900,
+ 'timeout': 900, 'rlimit': 40,
  'items': {
   # ---------------------------------------------------------------- types (R2: derives dropped, fields pub)
   'enum XRef': {'kind': 'decl', 'file': X, 'header': r'^pub enum XRef$', 'attrs': ['#[derive(Copy, Clone)]']},
@@ -44,9 +44,9 @@ UNIT = {
      ],
      'loops': {1: {'for_ghost': 'iter',
         'invariant': [
-           'width <= 8', 'width <= d0.len()', 'iter.index@ <= width',
-           'data@ == d0.subrange(iter.index@ as int, d0.len() as int)',
-           ('result as nat == be_val(d0.subrange(0, iter.index@ as int)) * pow256((width - iter.index@) as nat)'),
+           ('u64_width_le_8', 'width <= 8'), 'width <= d0.len()', 'iter.index@ <= width',
+           ('u64_cursor', 'data@ == d0.subrange(iter.index@ as int, d0.len() as int)'),
+           ('u64_partial', 'result as nat == be_val(d0.subrange(0, iter.index@ as int)) * pow256((width - iter.index@) as nat)'),
         ],
         'ensures': ['iter.index@ == width']}},
      'rewrites': [
@@ -70,29 +70,29 @@ UNIT = {
      'props': ['C02', 'C14', 'C01', 'C10'],
      'ensures': [
         ('sec_len3', 'width@.len() != 3 ==> r is Err'),
-        ('sec_short_strict', 'width@.len() == 3 && num_entries_0 * sec_e(width@) > old(data)@.len() && !resolve.opts().allow_xref_error ==> r is Err'),
+        ('sec_short_strict', 'width@.len() == 3 && !sec_fits(num_entries_0 as int, sec_e(width@), old(data)@.len() as int) && !resolve.opts().allow_xref_error ==> r is Err'),
         ('sec_bad_width', 'width@.len() == 3 && sec_n(width@, num_entries_0 as int, old(data)@.len() as int) > 0 && (width@[0] > 8 || width@[1] > 8 || width@[2] > 8) ==> r is Err'),
         ('sec_bad_type', 'r matches Ok(s) ==> types_ok(old(data)@, s.entries@.len() as int, width@[0] as int, width@[1] as int, width@[2] as int)'),
         ('sec_ok', 'width@.len() == 3 && width@[0] <= 8 && width@[1] <= 8 && width@[2] <= 8 && sec_e(width@) > 0 '
-                   '&& (num_entries_0 * sec_e(width@) <= old(data)@.len() || resolve.opts().allow_xref_error) '
+                   '&& (sec_fits(num_entries_0 as int, sec_e(width@), old(data)@.len() as int) || resolve.opts().allow_xref_error) '
                    '&& types_ok(old(data)@, sec_n(width@, num_entries_0 as int, old(data)@.len() as int), width@[0] as int, width@[1] as int, width@[2] as int) ==> r is Ok'),
         ('sec_first_id', 'r matches Ok(s) ==> s.first_id == first_id'),
         ('sec_entries', 'r matches Ok(s) ==> s.entries@ =~= section_entries(old(data)@, sec_n(width@, num_entries_0 as int, old(data)@.len() as int), width@[0] as int, width@[1] as int, width@[2] as int)'),
-        ('sec_consumed', 'r matches Ok(s) ==> final(data)@ == old(data)@.subrange(sec_n(width@, num_entries_0 as int, old(data)@.len() as int) * sec_e(width@), old(data)@.len() as int)'),
+        ('sec_consumed', 'r matches Ok(s) ==> final(data)@ == old(data)@.subrange(eoff(sec_n(width@, num_entries_0 as int, old(data)@.len() as int), sec_e(width@)), old(data)@.len() as int)'),
         ('sec_proportional', 'r matches Ok(s) ==> s.entries@.len() <= old(data)@.len()'),
      ],
      'loops': {1: {'for_ghost': 'it',
         'invariant': [
            'd0 == old(data)@', 'width@.len() == 3', 'width@[0] == w0', 'width@[1] == w1', 'width@[2] == w2',
            'allow == resolve.opts().allow_xref_error',
-           'n0 * (w0 + w1 + w2) <= d0.len() || allow',
+           'sec_fits(n0 as int, w0 + w1 + w2, d0.len() as int) || allow',
            'n0 == num_entries_0', 'num_entries == sec_n(width@, n0 as int, d0.len() as int)',
-           'num_entries * (w0 + w1 + w2) <= d0.len()', 'eoff(num_entries as int, w0 + w1 + w2) <= d0.len()',
+           'eoff(num_entries as int, w0 + w1 + w2) <= d0.len()',
            'w0 + w1 + w2 > 0 ==> num_entries <= d0.len()',
-           ('data@ == d0.subrange(eoff(it.index@ as int, w0 + w1 + w2), d0.len() as int)'),
-           ('entries@.len() == it.index@ && forall|j: int| 0 <= j < it.index@ ==> '
+           ('sec_cursor', 'data@ == d0.subrange(eoff(it.index@ as int, w0 + w1 + w2), d0.len() as int)'),
+           ('sec_sofar', 'entries@.len() == it.index@ && forall|j: int| 0 <= j < it.index@ ==> '
                          '#[trigger] entries@[j] == entry_at(d0, j, w0 as int, w1 as int, w2 as int)'),
-           ('forall|j: int| 0 <= j < it.index@ ==> #[trigger] entry_type(d0, j, w0 as int, w1 as int, w2 as int) <= 2'),
+           ('sec_types_sofar', 'forall|j: int| 0 <= j < it.index@ ==> #[trigger] entry_type(d0, j, w0 as int, w1 as int, w2 as int) <= 2'),
            'it.index@ > 0 ==> w0 <= 8 && w1 <= 8 && w2 <= 8',
         ]}},
      'rewrites': [
@@ -103,17 +103,15 @@ UNIT = {
         {'rule': 'R10', 'find': 'let [w0, w1, w2]: [usize; 3] = width.try_into().map_err(|_| other!("invalid xref length array"))?;',
          'replace': 'let __a: [usize; 3] = hoist_try3(width)?; let w0 = __a[0]; let w1 = __a[1]; let w2 = __a[2]; '
                     'let ghost d0 = data@; let ghost n0 = num_entries; let ghost allow = resolve.opts().allow_xref_error; '
-                    'proof { lemma_section_size(num_entries as int, w0 + w1 + w2, data@.len() as int); }'},
+                    'proof { lemma_section_size(num_entries as int, w0 + w1 + w2, data@.len() as int); lemma_sec_defs(num_entries as int, w0 + w1 + w2, data@.len() as int); }'},
         {'rule': 'R2', 'find': 'for _ in 0..num_entries {',
-         'replace': 'proof { lemma_section_size(num_entries as int, w0 + w1 + w2, d0.len() as int); '
+         'replace': 'proof { lemma_section_size(num_entries as int, w0 + w1 + w2, d0.len() as int); lemma_sec_defs(n0 as int, w0 + w1 + w2, d0.len() as int); '
                     'lemma_eoff(0, w0 + w1 + w2); lemma_eoff(num_entries as int, w0 + w1 + w2); assert(d0.subrange(0, d0.len() as int) =~= d0); } '
                     'for _i in 0..num_entries {' + ENTRY_PRELUDE},
         {'rule': 'R1', 'find': 'let entry = match _type {',
          'replace': 'proof { assert(_type as nat == entry_type(d0, k, w0 as int, w1 as int, w2 as int)); '
-                    'assert(field1 as nat == entry_f1(d0, k, w0 as int, w1 as int, w2 as int)); '
-                    'assert(field2 as nat == entry_f2(d0, k, w0 as int, w1 as int, w2 as int)); '
-                    'assert(k < sec_n(width@, n0 as int, d0.len() as int)); } let entry = match _type {'},
-        {'rule': 'R1', 'find': 'Ok(XRefSection {', 'replace': 'proof { lemma_eoff(num_entries as int, w0 + w1 + w2); } Ok(XRefSection {'},
+                    '} let entry = match _type {'},
+        {'rule': 'R1', 'find': 'Ok(XRefSection {', 'replace': 'Ok(XRefSection {', 'count': 1},
         {'rule': 'R1', 'find': 'entries.push(entry);',
          'replace': 'entries.push(entry); proof { lemma_entry_pos(k, num_entries as int, e, d0.len() as int); }'},
      ]},
@@ -134,7 +132,7 @@ UNIT = {
      'loops': {1: {
         'invariant': [
            '__i <= self.entries@.len()',
-           'forall|i: int| 0 <= i < __i && usable(self.entries@[i]) ==> fields(#[trigger] self.entries@[i]).1 <= max_a && fields(self.entries@[i]).2 <= max_b',
+           ('mfw_sofar', 'forall|i: int| 0 <= i < __i && usable(self.entries@[i]) ==> fields(#[trigger] self.entries@[i]).1 <= max_a && fields(self.entries@[i]).2 <= max_b'),
            'max_a == 0 || exists|i: int| 0 <= i < __i && usable(self.entries@[i]) && fields(#[trigger] self.entries@[i]).1 == max_a',
            'max_b == 0 || exists|i: int| 0 <= i < __i && usable(self.entries@[i]) && fields(#[trigger] self.entries@[i]).2 == max_b',
         ],
@@ -162,11 +160,11 @@ UNIT = {
      'loops': {1: {'for_ghost': 'it',
         'invariant': [
            'size <= self.entries@.len()', '__v@ == self.entries@.take(size as int)', '1 <= a_w <= 8', '1 <= b_w <= 8',
-           'forall|i: int| 0 <= i < self.entries@.len() && usable(self.entries@[i]) ==> '
-              'fields(#[trigger] self.entries@[i]).1 < pow256(a_w as nat) && fields(self.entries@[i]).2 < pow256(b_w as nat)',
-           'data@.len() == eoff(it.index@ as int, 1 + a_w + b_w)',
+           ('ws_widths_hold', 'forall|i: int| 0 <= i < self.entries@.len() && usable(self.entries@[i]) ==> '
+              'fields(#[trigger] self.entries@[i]).1 < pow256(a_w as nat) && fields(self.entries@[i]).2 < pow256(b_w as nat)'),
+           ('ws_len_sofar', 'data@.len() == eoff(it.index@ as int, 1 + a_w + b_w)'),
            'forall|j: int| 0 <= j < it.index@ ==> usable(#[trigger] self.entries@[j])',
-           'forall|j: int| 0 <= j < it.index@ ==> #[trigger] entry_at(data@, j, 1, a_w as int, b_w as int) == self.entries@[j]',
+           ('ws_sofar', 'forall|j: int| 0 <= j < it.index@ ==> #[trigger] entry_at(data@, j, 1, a_w as int, b_w as int) == self.entries@[j]'),
            'forall|j: int| 0 <= j < it.index@ ==> #[trigger] entry_type(data@, j, 1, a_w as int, b_w as int) <= 2',
         ]}},
      'rewrites': [
@@ -193,4 +191,14 @@ UNIT = {
          'replace': 'proof { assert(__v@.len() == size); lemma_eoff(size as int, 1 + a_w + b_w); } let info = XRefInfo {'},
      ]},
  },
+ 'kani': {
+   'modules': [{'file': X, 'code': 'kani_xref.rs'}],
+   'harnesses': [
+     {'name': 'byte_len_minimal_width', 'fn': 'byte_len', 'file': X, 'props': ['C10'], 'kind': 'complete', 'covers': True,
+      'contract': 'forall n: u64. 1 <= byte_len(n) <= 8, n < 256^byte_len(n), byte_len(n) == 1 or n >= 256^(byte_len(n)-1); never panics'},
+     {'name': 'to_be_bytes_tail_value', 'fn': 'XRefTable::write_stream', 'file': X, 'props': ['C10'], 'kind': 'complete', 'covers': True,
+      'bound': 'w <= 8 (all), unwind 9',
+      'contract': 'L0 of hoist_be_tail: forall n: u64, w <= 8. n.to_be_bytes()[8-w..] has w bytes and, if n < 256^w, big-endian value n'},
+   ],
+   'jobs': 2, 'timeout': 600 },
 }
